@@ -47,6 +47,42 @@ func (c *Check) inboundAdmission(rule string) {
 					outEst = r
 				}
 			}
+			// the same facts in their other shapes: `!=` instead of `==`, or
+			// the refined range of the recorded state itself
+			narrowed := false
+			var keys []string
+			for k := range st.rng {
+				keys = append(keys, k)
+			}
+			sort.Strings(keys)
+			for i, j := 0, len(keys)-1; i < j; i, j = i+1, j-1 {
+				keys[i], keys[j] = keys[j], keys[i] // "ld:" before "bin:"
+			}
+			for _, k := range keys {
+				r := st.rng[k]
+				switch {
+				case strings.HasPrefix(k, "bin:!=") && strings.Contains(k, "fa:fsmState(") && strings.Contains(k, fmt.Sprintf("const:%d,", est)):
+					if v, isC := r.IsConst(); isC && !narrowed {
+						outEst = isConst(1 - v)
+					}
+				case strings.HasPrefix(k, "ld:") && strings.Contains(k, "fa:fsmState(") && strings.HasSuffix(k, fmt.Sprintf("const:%d))", p.MustConst("out"))):
+					// excluded: Established, and nothing but Established (a
+					// guard that also refuses OpenConfirm keeps a late inbound
+					// connection out of collision resolution)
+					all := !r.Contains(est)
+					for sv := int64(0); sv < est; sv++ {
+						if !r.Contains(sv) {
+							all = false
+						}
+					}
+					if all {
+						outEst = isConst(0)
+					} else {
+						outEst = isRange(0, 1)
+						narrowed = true
+					}
+				}
+			}
 			h, ok1 := hold.IsConst()
 			s, ok2 := slotNil.IsConst()
 			e, ok3 := outEst.IsConst()
